@@ -1,6 +1,7 @@
 package mc
 
 import (
+	"verif/nodexspec"
 	"crypto/sha256"
 	"encoding/binary"
 	"fmt"
@@ -32,6 +33,7 @@ type Found struct {
 	Path     []Event
 	Trace    []string
 	Known    string // id of the known finding this violation is attributed to ("" = none)
+	NodeOps  []nodexspec.Op `json:",omitempty"` // strategy "nodex"
 }
 
 // Result aggregates one exploration.
